@@ -1013,6 +1013,31 @@ def check_ghistory(ctx, case, flat, answers, failures, mo):
                     {"agree": False, "index": first, "op": flat[first], "answer": answers[first]})
 
 
+def again_stream(ctx, first_runs, n_plain, n_graph):
+    """a sample of the histories once more at the end of the run, in another order, after all the unrelated ones
+    (the same component names in other roles, other worlds): the implementation must answer what it answered the
+    first time - nothing a FlowIRConcrete / graph leaves behind in the process may reach a later one"""
+    rng = ctx.rng
+    plain = [r for r in first_runs if r[0].get("kind") != "ghistory"]
+    graph = [r for r in first_runs if r[0].get("kind") == "ghistory"]
+    rng.shuffle(plain)
+    rng.shuffle(graph)
+    sample = plain[:n_plain] + graph[:n_graph]
+    rng.shuffle(sample)
+    for case, first in sample:
+        if case.get("kind") == "ghistory":
+            second = run_ghistory(case)[3]
+        else:
+            second = run_history(case)[2]
+        ctx.tag("again:" + case.get("kind", "history"))
+        a, b = [coarse(x) for x in first], [coarse(x) for x in second]
+        if canon(a) != canon(b):
+            k = next((k for k, (x, y) in enumerate(zip(a, b)) if canon(x) != canon(y)), min(len(a), len(b)))
+            ctx.fail("result-depends-on-earlier-cases", case,
+                     {"index": k, "first_time": a[k] if k < len(a) else None,
+                      "at_the_end_of_the_run": b[k] if k < len(b) else None})
+
+
 def check_histories(ctx, cases):
     runs = []
     reqs = []
@@ -1066,6 +1091,7 @@ def check_histories(ctx, cases):
                 ctx.compare("FlowIRConcrete history == Cache.run", case,
                             {"agree": True, "index": first, "op": flat[first], "answer": manswers[first]},
                             {"agree": False, "index": first, "op": flat[first], "answer": answers[first]})
+    return [(case, answers) for case, (flat, answers, failures) in zip(cases, runs)]
 
 
 def run(ctx):
@@ -1094,10 +1120,21 @@ def run(ctx):
                 "sibling graph), node accessors, WorkflowGraph, FlowIRExperimentConfiguration, Job, FlowIRConcrete; "
                 "every read compared with the matching part of a from-scratch resolution, sweeps ask every object "
                 "about every node, systematic 'sweep - ONE update through object E - sweep' for every object x update "
-                "kind; non-trivial there = an update with a read before and a read after it.")
+                "kind; non-trivial there = an update with a read before and a read after it.  Caller-side aliasing: in "
+                "40% of the random histories the components are stamped out of 1-2 template dictionaries of the caller - "
+                "add_component (2/5; in 40% of the calls the caller scribbles on its dictionary afterwards) or "
+                "update_component (1/5) receive dictionaries whose nested sections are the SAME objects as those of the "
+                "earlier calls of the template - and a systematic stream 'stamp 3 components out of one dictionary - ask "
+                "everything - ONE edit of one of them (each of 11 kinds) - ask everything - flush - ask everything', "
+                "scribbling after add_component, and delete + add out of the same template; the twin and the "
+                "reference objects always receive brand new copies.  A sample of the histories (25 + 4 graph-layer "
+                "ones; thorough 150 + 20) is run AGAIN at the end of the run in another order: the answers must be the "
+                "first ones.")
     ctx.assumptions = ["mutators are called on the existing platforms (default, p) only",
                        "update_component is given a body with the same (stage, name)",
                        "values are strings / integers / booleans / floats / None / short lists",
+                       "the caller does not mutate a VALUE (list) after handing it to a setter, nor the dictionary it "
+                       "gave to update_component (add_component documents insert_copy=True: there the caller does)",
                        "graph layer: components are not added / deleted (the graph's node set is fixed), "
                        "#workflowAttributes.repeatInterval / isRepeat and #command.interpreter are not driven (isRepeat is "
                        "re-derived from repeatInterval when a description is loaded, so raw() is not a fixed point of "
@@ -1138,7 +1175,8 @@ def run(ctx):
         {"op": "setVar", "stage": 0, "name": "c0", "var": "x", "value": "2"},
         {"op": "read", "what": "instance", "platform": "p", "fill_in_all": False, "prim": True, "inject": False},
         {"op": "sweep"}]})
-    check_histories(ctx, cases)
+    first_runs = check_histories(ctx, cases)
+    again_stream(ctx, first_runs, 25 if quick else 150, 4 if quick else 20)
 
 
 def replay(ctx, doc):
